@@ -248,6 +248,11 @@ func runEncoderProps(r *Run, prop string) {
 	c01Big(r)
 	if prop == "C01" {
 		c10LargePointee(r) // values above 64 KiB behind pointers, banks closed and recycled record by record
+		c01EveryBlockLength(r, true)
+	} else {
+		// C02 speaks of every file the encoder or the file writer produces: the FileWriter used
+		// directly (empty blocks, blocks at varint boundaries, AppendHeader behind a prefix)
+		c09FileWriterDirect(r, false)
 	}
 	nfiles := r.N(90, 2500)
 	for i := 0; i < nfiles; i++ {
